@@ -12,6 +12,7 @@ type Environment struct {
 	store     map[string]Object
 	Aliases   map[string]string
 	toCompact []Object
+	removed   []string
 }
 
 // NewEnvironment creates a new enviroment
@@ -130,6 +131,7 @@ func (e *Environment) Remove(name string) {
 	_, ok := e.store[n]
 	if ok {
 		delete(e.store, n)
+		e.removed = append(e.removed, n)
 
 		return
 	}
@@ -165,6 +167,13 @@ func (e *Environment) Apply(item map[string]*types.Item, aliases map[string]stri
 
 		vItem := v.ToDynamoDB()
 		item[k] = &vItem
+	}
+
+	// names taken out of the environment (REMOVE) leave the item too
+	for _, k := range e.removed {
+		if _, ok := e.store[k]; !ok {
+			delete(item, k)
+		}
 	}
 }
 
